@@ -137,6 +137,12 @@ func ps(params [][]int) int {
 	if len(params) > 0 {
 		ps = params[0][0]
 	}
+	// Parameters are 16 bit wide at most in every VT. A huge value (or a
+	// negative one, after overflow in the parser) would overflow the
+	// cursor arithmetic below
+	if ps < 0 || ps > 0xFFFF {
+		ps = 0xFFFF
+	}
 	return ps
 }
 
